@@ -237,13 +237,24 @@ fn run_script(script: &[&str]) {
                             "gof" => {
                                 let fetched = Arc::new(AtomicBool::new(false));
                                 let f2 = fetched.clone();
-                                let fut = cache.get_or_fetch(&op.k, move || async move {
-                                    f2.store(true, Ordering::SeqCst);
-                                    Ok::<_, anyhow::Error>(Val::new(v))
+                                // `tread`: when the origin was read (the fetch closure is invoked): the value is as of then
+                                let tread = Arc::new(AtomicU64::new(0));
+                                let t2 = tread.clone();
+                                let fut = cache.get_or_fetch(&op.k, move || {
+                                    t2.store(tick(), Ordering::SeqCst);
+                                    async move {
+                                        f2.store(true, Ordering::SeqCst);
+                                        Ok::<_, anyhow::Error>(Val::new(v))
+                                    }
                                 });
                                 match rt.block_on(fut) {
                                     Ok(e) => {
-                                        let r = format!("got:{}:{}", e.value().v, if fetched.load(Ordering::SeqCst) { 1 } else { 0 });
+                                        let r = format!(
+                                            "got:{}:{}:{}",
+                                            e.value().v,
+                                            if fetched.load(Ordering::SeqCst) { 1 } else { 0 },
+                                            tread.load(Ordering::SeqCst)
+                                        );
                                         held.push((e.value().v, e));
                                         r
                                     }
